@@ -32,6 +32,7 @@ using namespace primesieve;
 // piece length so that piece boundaries can be placed densely.
 // 0 = use config::MIN_THREAD_DISTANCE.
 uint64_t primesieve_verif_min_thread_distance = 0;
+bool primesieve_verif_ignore_sqrt_threshold = false;
 void (*primesieve_verif_piece_hook)(uint64_t i, uint64_t start, uint64_t stop) = nullptr;
 #endif
 
@@ -83,6 +84,10 @@ int ParallelSieve::idealNumThreads() const
 #if defined(PRIMESIEVE_VERIF)
   if (primesieve_verif_min_thread_distance)
     threshold = std::max(isqrt(stop_) / 5, primesieve_verif_min_thread_distance);
+  // H1b: with this flag the override alone decides (small intervals
+  // near 2^64 can then be split into several pieces as well).
+  if (primesieve_verif_min_thread_distance && primesieve_verif_ignore_sqrt_threshold)
+    threshold = primesieve_verif_min_thread_distance;
 #endif
   uint64_t threads = getDistance() / threshold;
   threads = inBetween(1, threads, numThreads_);
